@@ -226,6 +226,7 @@ def run_case(case):
       continue
     ref = E.mj_rows(mjm, mjd)
     rc = E.mj_contacts(mjd)
+    jdot_scale = float(np.abs(mjd.cvel).max()) ** 2 * (1.0 + float(mjm.stat.extent)) if mjm.nbody > 1 else 0.0
     # ---- conditioning probe (same injected contact geometry, inputs perturbed by +-2 ulp)
     prng = np.random.default_rng(case["seed"] * 7 + w)
     probes = []
@@ -325,6 +326,13 @@ def run_case(case):
             break
           noise = max(noise, float(np.abs(np.asarray(pr[f][pj], dtype=np.float64) - r).max()))
         scale = max(1.0, float(np.abs(r).max()))
+        if f == "aref":
+          scale = max(scale, float(ref["aref_terms"][j]))  # aref is a difference of terms that may be far larger
+          if key[0] == E.T_EQ and int(mjm.eq_type[key[1][1]]) in (int(mujoco.mjtEq.mjEQ_CONNECT), int(mujoco.mjtEq.mjEQ_WELD)):
+            # connect/weld subtract (Jdot_1 - Jdot_2).qvel, a difference of velocity-quadratic terms of both bodies
+            # and share quaternion/vector intermediates across the block, so round-off carries the block's magnitude
+            blk = (ref["type"] == E.T_EQ) & (ref["id"] == key[1][1])
+            scale = max(scale, jdot_scale, float(np.abs(ref["aref"][blk]).max()), float(ref["aref_terms"][blk].max()))
         a = ALLOW[f]
         if f == "D":
           a = a * (1.0 + 1.0 / max(1e-4, 1.0 - float(ref["imp"][j])))
